@@ -61,16 +61,23 @@ def _case_b(draw):
     Kx, Ky, Kz = draw(gen.logfl(0.1, 5.0)), draw(gen.logfl(0.1, 5.0)), draw(gen.logfl(0.1, 5.0))
     z0 = draw(gen.logfl(0.01, 1.0))
     H = draw(gen.logfl(2.0, 40.0))
-    grid = draw(st.sampled_from(["uniform", "log"]))
+    grid = draw(st.sampled_from(["uniform", "log", "uniform", "log", "uniform-int"]))
     nx, ny = draw(st.integers(3, 8)), draw(st.integers(3, 8))
     dx = H * draw(gen.logfl(0.5, 20.0))
     dy = dx * draw(gen.logfl(0.5, 2.0))
     r0 = draw(gen.logfl(0.03, 0.5))
     case = {"kind": "B", "u": u, "v": v, "Kx": Kx, "Ky": Ky, "Kz": Kz, "z0": z0, "H": H, "grid": grid,
             "nx": nx, "ny": ny, "frac": draw(st.sampled_from([0.25, 0.5, 0.75, 1.0]))}
+    if grid == "uniform-int":
+        # whole-metre nodes passed as an integer array: dz = 4k, 2k, k metres at n, 2n, 4n layers
+        k = draw(st.integers(1, 2))
+        n_int = draw(st.sampled_from([8, 12, 16]))
+        case["z0"], case["H"] = 1.0, float(4 * k * n_int)
     # construct (dx, dy, n) inside the regime
     for _ in range(80):
         n = _layers_for(case, dx, dy, r0)
+        if grid == "uniform-int":
+            n = n_int if _res(case, dx, dy, n_int) <= r0 else 4096
         g = _growth(case, dx, dy)
         if n <= 48 and g <= 10.0:
             break
@@ -89,6 +96,8 @@ def strategy(tier):
 
 def _zgrid(case, n):
     z0, zt = case["z0"], case["z0"] + case["H"]
+    if case["grid"] == "uniform-int":
+        return np.rint(np.linspace(z0, zt, n + 1)).astype(np.int64)
     if case["grid"] == "uniform":
         return np.linspace(z0, zt, n + 1)
     return z0 * (zt / z0) ** np.linspace(0.0, 1.0, n + 1)
